@@ -7,6 +7,12 @@ namespace rkverif {
   {
     void operator()(const rkcommon::math::vec3i &) {}
   };
+  // a callable that returns a value (a visit counter): for_each ignores what the callable returns
+  struct Count
+  {
+    int n{0};
+    int operator()(const rkcommon::math::vec3i &) { return n++; }
+  };
 }  // namespace rkverif
 
 namespace rkcommon {
@@ -25,6 +31,7 @@ namespace rkcommon {
     template struct MultiSliceArray3D<float>;
 
     template void for_each<rkverif::Visit &>(const vec3i &, const vec3i &, rkverif::Visit &);
+    template void for_each<rkverif::Count &>(const vec3i &, const vec3i &, rkverif::Count &);
     template void for_each<rkverif::Visit &>(const vec3i &, rkverif::Visit &);
     template void for_each<rkverif::Visit &>(const box3i &, rkverif::Visit &);
   }  // namespace array3D
